@@ -96,6 +96,12 @@ func (rww *responseWriterWrapper) WriteHeader(status int) {
 	if rww.wroteHeader {
 		return
 	}
+	// an informational header (1xx, except 101) is not the response
+	// header: pass it on, the response header proper is still to come
+	if status >= 100 && status <= 199 && status != http.StatusSwitchingProtocols {
+		rww.ResponseWriterWrapper.WriteHeader(status)
+		return
+	}
 	rww.wroteHeader = true
 	// capture the original headers
 	h := rww.Header()
